@@ -648,19 +648,24 @@ class Nodes:
             return Nodes.typed_value(value.node)
 
         cased_value = value
-        lower_value = str(value).lower()
 
         try:
             # Booleans require special handling
+            lower_value = str(value).lower()
             if lower_value in ("true", "false"):
                 cased_value = str(value).title()
             typed_value = literal_eval(cased_value)
         except ValueError:
+            # Includes integers too wide to be rendered as text
             typed_value = value
         except SyntaxError:
             typed_value = value
         except TypeError:
             # e.g. "{[1]:2}" is literal syntax for an unhashable key
+            typed_value = value
+        except (MemoryError, RecursionError):
+            # Long text (prose; chains like a/b/c/...) overwhelms Python's
+            # parser; such a value is just text
             typed_value = value
         return typed_value
 
